@@ -221,6 +221,7 @@ const (
 )
 
 type c02 struct {
+	fillAddr sdk.AccAddress // when set, fill() writes this address into every string / bytes field
 	r               *Rec
 	w               *World
 	cfgN            int // ambient configuration counter (see end)
@@ -1514,7 +1515,11 @@ func (h *c02) fill(v reflect.Value, depth int) {
 			}
 		}
 	case reflect.String:
-		v.SetString(h.addr(symAddr{'c', 0}).String())
+		if h.fillAddr != nil {
+			v.SetString(h.fillAddr.String())
+		} else {
+			v.SetString(h.addr(symAddr{'c', 0}).String())
+		}
 	case reflect.Bool:
 		v.SetBool(true)
 	case reflect.Int, reflect.Int32, reflect.Int64:
@@ -1523,7 +1528,11 @@ func (h *c02) fill(v reflect.Value, depth int) {
 		v.SetUint(1)
 	case reflect.Slice:
 		if v.Type().Elem().Kind() == reflect.Uint8 {
-			v.SetBytes(append([]byte{}, h.addr(symAddr{'c', 0})...))
+			if h.fillAddr != nil {
+				v.SetBytes(append([]byte{}, h.fillAddr...))
+			} else {
+				v.SetBytes(append([]byte{}, h.addr(symAddr{'c', 0})...))
+			}
 		} else {
 			el := reflect.New(v.Type().Elem()).Elem()
 			h.fill(el, depth+1)
@@ -1733,6 +1742,45 @@ func (h *c02) eipClasses() {
 				checkPure(url, pm)
 			}
 		}
+	}
+	// the declared signers of a message whose address fields all hold one 32-byte address are that address - not a prefix
+	// of it, not a 20-byte cut (the ante chain asks for the signatures GetSigners names)
+	long := sdk.AccAddress(append(append([]byte{}, h.addr(symAddr{'c', 0})...), []byte("0123456789ab")...))
+	var truncated []string
+	for _, url := range reg.ListImplementations(sdk.MsgInterfaceProtoName) {
+		if !strings.Contains(url, "/kira.") {
+			continue
+		}
+		pm, err := reg.Resolve(url)
+		if err != nil {
+			continue
+		}
+		msg, ok := pm.(sdk.Msg)
+		if !ok {
+			continue
+		}
+		h.fillAddr = long
+		func() {
+			defer func() { recover() }()
+			h.fill(reflect.ValueOf(msg), 0)
+		}()
+		h.fillAddr = nil
+		var ss []sdk.AccAddress
+		func() {
+			defer func() { recover() }()
+			ss = msg.GetSigners()
+		}()
+		h.r.Count("oracle:C02/signers/long-address")
+		for _, a := range ss {
+			if len(a) != len(long) && bytes.HasPrefix(long, a) {
+				truncated = append(truncated, url)
+				break
+			}
+		}
+	}
+	sort.Strings(truncated)
+	if len(truncated) > 0 {
+		h.r.Fail("C02/signers/truncated-address", "GetSigners names a PREFIX of the address the message acts for (a key that does not control that address can sign for it): "+strings.Join(truncated, " ; "), nil)
 	}
 	sort.Strings(rewritten)
 	if len(rewritten) > 0 {
